@@ -92,13 +92,15 @@ def project(evs, ost, wfout=None):
     return [dict(fields, **x) for x in out]
 
 
-def one_run_events(trace_path, wfout=None):
+def one_run_events(trace_path, wfout=None, sub_runs=False):
+    """projected events of the top-level runs of a trace (sub_runs=False) or of the runs started by loop steps for their
+    items (sub_runs=True: each is an engine run of its own, cancelled - if at all - through its parent's context)"""
     evs = vlib.read_trace(trace_path)
     runs, objrun = vlib.split_runs(evs)
     ost = vlib.obj_steps(evs)
     res = []
     for ru in runs:
-        if ru['parent'] is None:
+        if (ru['parent'] is None) != sub_runs:
             res.append(project(ru['events'], ost, wfout))
     return res
 
